@@ -22,12 +22,24 @@ type c09Universe struct {
 	types  [][]byte
 	owners [][]byte
 	data   [][]byte
+	ext    [][]byte          // data values for the externally-managed type: two of 1 byte (the only well-formed size), 0, 2 and 32 bytes
 	pems   map[string][]byte // hex(pem) -> der
+}
+
+// wellSized: the signature data has the one size the specification fixes for this type (no rule for the other types)
+func wellSized(t []byte, d []byte) bool {
+	switch {
+	case bytes.Equal(t, tSHA256):
+		return len(d) == 32
+	case bytes.Equal(t, tEXT):
+		return len(d) == 1 // EFI_CERT_EXTERNAL_MANAGEMENT_GUID: SignatureSize is 16+1, the data is one byte
+	}
+	return true
 }
 
 func newC09Universe(c *Ctx) *c09Universe {
 	u := &c09Universe{pems: map[string][]byte{}}
-	u.types = [][]byte{tX509, tSHA256, tSHA1, tUnknown}
+	u.types = [][]byte{tX509, tSHA256, tSHA1, tUnknown, tEXT}
 	u.owners = [][]byte{bytes.Repeat([]byte{0x11}, 16), {0x77, 0x50, 0x80, 0xc1, 0x86, 0x4d, 0x42, 0x9e, 0xa5, 0x26, 0x11, 0x22, 0x33, 0x44, 0x55, 0x66}}
 	h1 := bytes.Repeat([]byte{0xaa}, 32)
 	h2 := make([]byte, 32)
@@ -41,6 +53,10 @@ func newC09Universe(c *Ctx) *c09Universe {
 	// index 10: PEM of cert A behind the text other tools put in front of the block (pem.Decode skips it)
 	pre := append([]byte("Bag Attributes\n    friendlyName: cert-A\nsubject=CN = cert-A\n\n"), pemOf(a)...)
 	u.data = [][]byte{h1, h2, h1[:31], append(append([]byte{}, h1...), 0x01), a, pemOf(a), b, cc, pemOf(cc), make([]byte, 20), pre}
+	// externally-managed entries (F37): SignatureSize is fixed at 16+1, so one byte is the only well-formed
+	// data size; an empty value, two bytes and a 32-byte hash are the wrongly-sized ones. Constants: no
+	// random number is consumed, the other values of the universe are what they were.
+	u.ext = [][]byte{{0x01}, {0x5a}, {}, {0x01, 0x02}, h1}
 	// index 11: cert D, whose DER encoding is exactly as long as the PEM text of cert A: a size taken
 	// from the wrong form of a certificate then coincides with the size of a list that is really there.
 	// (generator of its own, so that the other properties that use this universe see the stream they saw before)
@@ -256,6 +272,7 @@ func c09History(c *Ctx, cs Case, prop string) {
 	}
 	nEmpty := emptyLists(lists)
 	curLists := lists // the Spec view of the database before the current operation
+	prevEnc := db.Bytes() // the encoding of the database before the current operation
 	var goOuts []string
 	appendedEmpty := 0 // signature-less lists handed to AppendList (known finding F20)
 	var held []*heldList // the lists handed to AppendList / AppendDatabase so far: the caller still has them
@@ -482,6 +499,10 @@ func c09History(c *Ctx, cs Case, prop string) {
 					mustErr = "duplicate entry"
 				case f[1] == hx(tSHA256) && len(unhx(nd)) != 32:
 					mustErr = "wrongly-sized SHA-256 data"
+				case f[1] == hx(tEXT) && len(unhx(nd)) != 1:
+					// EFI_CERT_EXTERNAL_MANAGEMENT_GUID: SignatureSize is 16+1 (UEFI 2.8 section 32.4.1); the library's
+					// own decoder accepts no other size
+					mustErr = "wrongly-sized externally-managed data"
 				}
 				if mustErr != "" {
 					if class != "err" || !sameTriples(before, abs) {
@@ -570,6 +591,9 @@ func c09History(c *Ctx, cs Case, prop string) {
 			}
 		}
 		if prop == "C07" && f[0] == "E" {
+			// "every database built through the library's own operations encodes to a well-formed stream that
+			// decodes to an equal database": when all lists are of the types the decoder handles (X.509,
+			// SHA-256, externally-managed) the library's decoder has to accept the stream ...
 			allHandled := true
 			for _, l := range lists {
 				if !(l.typ == hx(tX509) || l.typ == hx(tSHA256) || l.typ == hx(tEXT)) {
@@ -577,9 +601,23 @@ func c09History(c *Ctx, cs Case, prop string) {
 				}
 			}
 			if allHandled && class != "ok" {
-				fail(i, "a database built through the library's operations does not decode from its own encoding", class, "ok", "")
+				what := "a database built through the library's operations does not decode from its own encoding"
+				for _, l := range lists {
+					switch {
+					case l.typ == hx(tEXT) && l.size != "17":
+						what += fmt.Sprintf(" (it holds an externally-managed list of signature size %s: the operations let in data that is not one byte)", l.size)
+					case l.typ == hx(tSHA256) && l.size != "48":
+						what += fmt.Sprintf(" (it holds a SHA-256 list of signature size %s)", l.size)
+					}
+				}
+				fail(i, what, class+" "+goDbStr(*db), "ok", "")
+			}
+			// ... and what it decodes to is an equal database: the same lists, so the same encoding
+			if class == "ok" && !bytes.Equal(enc, prevEnc) {
+				fail(i, "the database decoded from the encoding of a built database is not equal to it (it encodes differently)", hx(enc), hx(prevEnc), "")
 			}
 		}
+		prevEnc = enc
 	}
 	// ---- correspondence with the Lean model, op by op ----
 	c.Trace()
@@ -663,6 +701,9 @@ func genHistory(c *Ctx, u *c09Universe, maxLen int) Case {
 				d = u.data[c.Rng.Intn(4)]
 			case bytes.Equal(t, tX509):
 				d = u.data[[]int{4, 5, 6, 7, 8, 10, len(u.data) - 1}[c.Rng.Intn(7)]]
+			case bytes.Equal(t, tEXT):
+				// one byte (two values) most of the time; 0, 2 and 32 bytes are the wrongly-sized ones
+				d = u.ext[[]int{0, 0, 1, 1, 2, 3, 4}[c.Rng.Intn(7)]]
 			}
 		}
 		if len(recent) > 0 && c.Rng.Intn(2) == 0 {
@@ -723,16 +764,18 @@ func genHistory(c *Ctx, u *c09Universe, maxLen int) Case {
 				}
 				es = append(es, hx(o)+":"+hx(dd))
 			}
-			if bytes.Equal(t, tSHA256) && len(d) != 32 {
-				continue
+			if !wellSized(t, d) {
+				continue // the probe list is built through AppendBytes, which refuses such data
 			}
 			ops = append(ops, fmt.Sprintf("X,%s,%s", hx(t), strings.Join(es, "+")))
 		case k < 18:
 			// AppendList of a fresh well-formed non-empty list of a handled type
-			lt := [][]byte{tX509, tSHA256}[c.Rng.Intn(2)]
+			lt := [][]byte{tX509, tSHA256, tEXT}[c.Rng.Intn(3)]
 			var dd []byte
 			if bytes.Equal(lt, tSHA256) {
 				dd = u.data[c.Rng.Intn(2)]
+			} else if bytes.Equal(lt, tEXT) {
+				dd = u.ext[c.Rng.Intn(2)]
 			} else {
 				dd = [][]byte{u.data[4], u.data[6], u.data[7]}[c.Rng.Intn(3)]
 			}
@@ -752,10 +795,12 @@ func genHistory(c *Ctx, u *c09Universe, maxLen int) Case {
 			// own pointer, interleaved with the database-level operations around it
 			if len(handed) == 0 || c.Rng.Intn(4) == 0 {
 				// hand over a list of two to four entries of one size first (all built through AppendBytes)
-				lt := [][]byte{tX509, tSHA256}[c.Rng.Intn(2)]
+				lt := [][]byte{tX509, tSHA256, tEXT}[c.Rng.Intn(3)]
 				pool := [][]byte{u.data[0], u.data[1]}
 				if bytes.Equal(lt, tX509) {
 					pool = [][]byte{u.data[4], u.data[6]}
+				} else if bytes.Equal(lt, tEXT) {
+					pool = [][]byte{u.ext[0], u.ext[1]}
 				}
 				var es []string
 				m := 2 + c.Rng.Intn(3)
@@ -782,6 +827,10 @@ func genHistory(c *Ctx, u *c09Universe, maxLen int) Case {
 				ho, hd := o, d
 				if len(h.entries) > 0 && c.Rng.Intn(5) != 0 {
 					var fit [][]byte
+					if bytes.Equal(h.t, tEXT) {
+						// the caller appends to the externally-managed list it handed over: the well-formed size and the others
+						hd = u.ext[c.Rng.Intn(len(u.ext))]
+					}
 					for _, x := range u.data {
 						der, isPem := u.pems[hx(x)]
 						if !isPem {
@@ -858,6 +907,15 @@ func genHistory(c *Ctx, u *c09Universe, maxLen int) Case {
 				}
 				ops = append(ops, fmt.Sprintf("LM,%s,%s", hx(tX509), strings.Join(es, "+")))
 				hand(tX509, es)
+			} else if r == 3 {
+				// an externally-managed list built through the list-level API from data of the well-formed size
+				// (one byte) and of other sizes, in any order: what AppendBytes lets in is what the database holds
+				var es []string
+				for k := 1 + c.Rng.Intn(3); k > 0; k-- {
+					es = append(es, hx(u.owners[c.Rng.Intn(2)])+":"+hx(u.ext[c.Rng.Intn(len(u.ext))]))
+				}
+				ops = append(ops, fmt.Sprintf("LM,%s,%s", hx(tEXT), strings.Join(es, "+")))
+				hand(tEXT, nil) // which of them the list took depends on the code under test: the book keeps the type only
 			} else {
 				ops = append(ops, "E")
 			}
@@ -868,7 +926,13 @@ func genHistory(c *Ctx, u *c09Universe, maxLen int) Case {
 		// a decoded start: 1-3 well-formed lists without duplicates inside a list
 		var b []byte
 		for k := 0; k < 1+c.Rng.Intn(3); k++ {
-			if c.Rng.Intn(2) == 0 {
+			if c.Rng.Intn(5) == 0 {
+				sigs := [][2][]byte{{u.owners[0], u.ext[c.Rng.Intn(2)]}}
+				if c.Rng.Intn(2) == 0 {
+					sigs = append(sigs, [2][]byte{u.owners[1], u.ext[c.Rng.Intn(2)]})
+				}
+				b = append(b, encodeList(tEXT, nil, 17, sigs)...)
+			} else if c.Rng.Intn(2) == 0 {
 				sigs := [][2][]byte{{u.owners[0], u.data[c.Rng.Intn(2)]}}
 				if c.Rng.Intn(2) == 0 {
 					sigs = append(sigs, [2][]byte{u.owners[1], u.data[c.Rng.Intn(2)]})
@@ -955,7 +1019,7 @@ func c09Gen(c *Ctx) {
 
 func init() {
 	register("C09", &PropDef{
-		Rule:   "random histories of append / remove / BytesExists / Exists (every third append, removal and membership query enters through the library's other name for the operation: SignatureDatabase.AppendSignature, RemoveSignature, SigDataExists - same oracle, and for PEM appends the same PEM-vs-DER comparison through that entry point; model driver ops AS / RS / QS, translated-code driver: the translated AppendSignature / RemoveSignature / SigDataExists) / AppendList / AppendList and AppendDatabase of a hand-built list with a 1..12-byte SignatureHeader (HeaderSize > 0; types SHA1 / SHA384, which only a caller can build, and two GUIDs that are no signature type at all - a list of a type unknown to the library can only enter this way, is part of the entry collection like any other, and must answer the queries and give up its entries to remove; later appends and removes are steered into that list) / HELD-LIST operations (the caller keeps the pointer of every list it handed to AppendList / AppendDatabase and goes on editing it through the list-level AppendBytes / RemoveBytes - lists of two to four equal-sized entries are handed over for this - interleaved with the database-level operations; in the library the database's list is that very list, which the oracle, the model driver and the translated-code driver follow with a book of positions; an edit may change the database by that one entry only, a list the database dropped or that a decode replaced must not change it at all; a RemoveBytes that would leave a signature-less list inside the database is skipped: known finding F20) / encode-decode over types {X509, SHA256, SHA1 (valid, undecodable), unknown GUID} x 2 owners x {two hashes, 31- and 33-byte strings, cert A DER/PEM/PEM behind a text preamble, cert B (|B|=|A|), cert C DER/PEM (|C|!=|A|), 20 bytes, cert D whose DER length equals the length of the PEM text of cert A}, started from empty or from a decoded well-formed stream; operands are biased towards recently used triples. Every append of an X.509 certificate in PEM form is repeated with the DER form on a deep copy of the database: error class and entry collection have to be the same (PEM is stored as DER, whatever lists are present). Non-trivial: at least two operations of at least two kinds; distinct = distinct histories.",
+		Rule:   "random histories of append / remove / BytesExists / Exists (every third append, removal and membership query enters through the library's other name for the operation: SignatureDatabase.AppendSignature, RemoveSignature, SigDataExists - same oracle, and for PEM appends the same PEM-vs-DER comparison through that entry point; model driver ops AS / RS / QS, translated-code driver: the translated AppendSignature / RemoveSignature / SigDataExists) / AppendList / AppendList and AppendDatabase of a hand-built list with a 1..12-byte SignatureHeader (HeaderSize > 0; types SHA1 / SHA384, which only a caller can build, and two GUIDs that are no signature type at all - a list of a type unknown to the library can only enter this way, is part of the entry collection like any other, and must answer the queries and give up its entries to remove; later appends and removes are steered into that list) / HELD-LIST operations (the caller keeps the pointer of every list it handed to AppendList / AppendDatabase and goes on editing it through the list-level AppendBytes / RemoveBytes - lists of two to four equal-sized entries are handed over for this - interleaved with the database-level operations; in the library the database's list is that very list, which the oracle, the model driver and the translated-code driver follow with a book of positions; an edit may change the database by that one entry only, a list the database dropped or that a decode replaced must not change it at all; a RemoveBytes that would leave a signature-less list inside the database is skipped: known finding F20) / encode-decode over types {X509, SHA256, externally-managed (EFI_CERT_EXTERNAL_MANAGEMENT_GUID, whose signature size the specification fixes at 16+1), SHA1 (valid, undecodable), unknown GUID} x 2 owners x {two hashes, 31- and 33-byte strings, cert A DER/PEM/PEM behind a text preamble, cert B (|B|=|A|), cert C DER/PEM (|C|!=|A|), 20 bytes, cert D whose DER length equals the length of the PEM text of cert A; for the externally-managed type two one-byte values (the only well-formed size) and values of 0, 2 and 32 bytes}, started from empty or from a decoded well-formed stream (X.509, SHA-256 and externally-managed lists); WRONGLY-SIZED appends (F37): SHA-256 data that is not 32 bytes and externally-managed data that is not one byte must report an error and change nothing, through Append and AppendSignature alike; externally-managed lists are also handed over by AppendList (well-formed, and built through the list-level AppendBytes from values of all five sizes) and edited by their holder; operands are biased towards recently used triples. Every append of an X.509 certificate in PEM form is repeated with the DER form on a deep copy of the database: error class and entry collection have to be the same (PEM is stored as DER, whatever lists are present). Non-trivial: at least two operations of at least two kinds; distinct = distinct histories.",
 		Assume: []string{"lists handed to AppendList / AppendDatabase are fresh, well-formed (ListSize = 28 + HeaderSize + n*SignatureSize, HeaderSize = len(SignatureHeader)) and duplicate-free (slice aliasing between two databases is outside the model; the caller's pointer to a handed-over list is inside it since the held-list operations); an empty one reproduces known finding F20", "a decoded start database has no duplicate entry inside a list"},
 		Eval:   c09Eval,
 		Gen:    c09Gen,
